@@ -163,3 +163,239 @@ Qed.
 
 Lemma slot2 a b j : slot [a; b] j = match j with 0 => a | 1 => b | _ => None end.
 Proof. unfold slot. destruct j as [|[|[|j]]]; reflexivity. Qed.
+
+(* ========================================================================================== *)
+(* 2. the invariant *)
+
+Record BWF (s : bheap) : Prop := {
+  bw_len   : forall p, length (bkids s p) = 2;                                  (* exactly two slots   *)
+  bw_down  : forall p i c, slot (bkids s p) i = Some c -> bpar s c = Some p;    (* slot -> parent      *)
+  bw_up    : forall c p, bpar s c = Some p -> exists i, slot (bkids s p) i = Some c;  (* parent -> slot *)
+  bw_once  : forall p, once (bkids s p);                                        (* in one slot only    *)
+  bw_bound : forall c p, bpar s c = Some p -> c < bsize s /\ p < bsize s;       (* links among live ids *)
+  bw_acyc  : exists r : id -> nat, forall c p, bpar s c = Some p -> r p < r c   (* ghost rank           *)
+}.
+
+(* pointwise equality of states (no functional extensionality) *)
+Definition beq (s t : bheap) : Prop :=
+  bsize s = bsize t /\ (forall x, bpar s x = bpar t x) /\ (forall x, bkids s x = bkids t x).
+
+Lemma beq_refl s : beq s s.
+Proof. repeat split. Qed.
+Lemma beq_sym s t : beq s t -> beq t s.
+Proof. intros [H1 [H2 H3]]. repeat split; intros; symmetry; auto. Qed.
+Lemma beq_trans s t u : beq s t -> beq t u -> beq s u.
+Proof.
+  intros [H1 [H2 H3]] [G1 [G2 G3]]. split; [congruence|].
+  split; intros x; [rewrite H2; apply G2|rewrite H3; apply G3].
+Qed.
+
+Lemma BWF_beq s t : BWF s -> beq s t -> BWF t.
+Proof.
+  intros [Hl Hd Hu Ho Hb [r Hr]] [E1 [E2 E3]]. constructor.
+  - intros p. rewrite <- E3. apply Hl.
+  - intros p i c. rewrite <- E3, <- E2. apply Hd.
+  - intros c p. rewrite <- E2, <- E3. apply Hu.
+  - intros p. rewrite <- E3. apply Ho.
+  - intros c p. rewrite <- E2, <- E1. apply Hb.
+  - exists r. intros c p. rewrite <- E2. apply Hr.
+Qed.
+
+Lemma memb_In x l : memb x l = true <-> In x l.
+Proof.
+  unfold memb. rewrite existsb_exists. split.
+  - intros [y [Hy E]]. apply Nat.eqb_eq in E. subst. exact Hy.
+  - intros H. exists x. split; [exact H|apply Nat.eqb_refl].
+Qed.
+
+Lemma BWF_init n : BWF (binit n).
+Proof.
+  constructor; cbn [binit bkids bpar bsize]; try discriminate.
+  - reflexivity.
+  - intros p i c. rewrite slot2. destruct i as [|[|i]]; discriminate.
+  - intros p i j x. rewrite slot2. destruct i as [|[|i]]; discriminate.
+  - exists (fun _ => 0). discriminate.
+Qed.
+
+(* ------------------------------------------------------------------------------------------ *)
+(* the fuelled parent walk on a ranked state: fuel = bsize is never exhausted *)
+
+Section Chain.
+Variable s : bheap.
+Variable r : id -> nat.
+Hypothesis Hr : forall c p, bpar s c = Some p -> r p < r c.
+Hypothesis Hb : forall c p, bpar s c = Some p -> c < bsize s /\ p < bsize s.
+
+Lemma banc_rank f : forall c x, In x (banc s f c) -> r x < r c.
+Proof.
+  induction f as [|f IH]; cbn [banc]; intros c x Hx; [contradiction|].
+  destruct (bpar s c) as [p|] eqn:E; [|contradiction].
+  destruct Hx as [->|Hx]; [eauto|]. specialize (IH _ _ Hx). specialize (Hr _ _ E). lia.
+Qed.
+
+Lemma banc_nodup f : forall c, NoDup (banc s f c).
+Proof.
+  induction f as [|f IH]; cbn [banc]; intros c; [constructor|].
+  destruct (bpar s c) as [p|] eqn:E; [|constructor].
+  constructor; [|apply IH]. intros H. apply banc_rank in H. lia.
+Qed.
+
+Lemma banc_bound f : forall c x, In x (banc s f c) -> x < bsize s.
+Proof.
+  induction f as [|f IH]; cbn [banc]; intros c x Hx; [contradiction|].
+  destruct (bpar s c) as [p|] eqn:E; [|contradiction].
+  destruct Hx as [->|Hx]; [apply (Hb _ _ E)|eauto].
+Qed.
+
+Lemma banc_len_lt f c : bsize s <= f -> bpar s c <> None -> length (banc s f c) < f.
+Proof.
+  intros Hf Hc.
+  assert (Hnd : NoDup (c :: banc s f c)).
+  { constructor; [|apply banc_nodup]. intros H. apply banc_rank in H. lia. }
+  assert (Hin : incl (c :: banc s f c) (seq 0 (bsize s))).
+  { intros x [<-|Hx]; apply in_seq.
+    - destruct (bpar s c) as [p|] eqn:E; [|congruence]. destruct (Hb _ _ E). lia.
+    - apply banc_bound in Hx. lia. }
+  pose proof (NoDup_incl_length Hnd Hin) as H. rewrite seq_length in H. cbn [length] in H. lia.
+Qed.
+
+Lemma banc_short_stable f : forall c, length (banc s f c) < f -> banc s (S f) c = banc s f c.
+Proof.
+  induction f as [|f IH]; intros c H; [cbn in H; lia|].
+  cbn [banc] in *. destruct (bpar s c) as [p|]; [|reflexivity].
+  cbn [length] in H. f_equal. apply IH. lia.
+Qed.
+
+Lemma banc_fix f c : bsize s <= f -> banc s (S f) c = banc s f c.
+Proof.
+  intros Hf. case_eq (bpar s c); [intros p E|intros E].
+  - apply banc_short_stable, banc_len_lt; [assumption|congruence].
+  - cbn [banc]. rewrite E. destruct f; cbn [banc]; rewrite ?E; reflexivity.
+Qed.
+
+Lemma bancestors_unfold c p : bpar s c = Some p -> bancestors s c = p :: bancestors s p.
+Proof.
+  intros E. unfold bancestors. rewrite <- (banc_fix (bsize s) c) by lia.
+  cbn [banc]. rewrite E. reflexivity.
+Qed.
+
+Lemma bancestors_root c : bpar s c = None -> bancestors s c = [].
+Proof. intros E. unfold bancestors. destruct (bsize s); cbn [banc]; rewrite ?E; reflexivity. Qed.
+
+(* the walk from any node ends at a root within bsize steps *)
+Lemma banc_len_le c : length (bancestors s c) <= bsize s.
+Proof.
+  case_eq (bpar s c); [intros p E|intros E].
+  - assert (H := banc_len_lt (bsize s) c (le_n _)). rewrite E in H. specialize (H ltac:(discriminate)).
+    unfold bancestors. lia.
+  - rewrite (bancestors_root c E). cbn. lia.
+Qed.
+End Chain.
+
+Lemma existsb_ext_in {A} (f g : A -> bool) l :
+  (forall x, In x l -> f x = g x) -> existsb f l = existsb g l.
+Proof.
+  induction l as [|h t IH]; intros H; [reflexivity|]. cbn [existsb].
+  rewrite (H h (or_introl eq_refl)), IH; [reflexivity|]. intros x Hx. apply H. right. exact Hx.
+Qed.
+
+(* re-ranking after the nodes `ms` (with their subtrees) have been hung below p *)
+Lemma rerank s (ms : list id) p (par' : id -> option id) :
+  BWF s ->
+  (forall x, In x ms -> x <> p /\ ~ In x (bancestors s p)) ->
+  (forall c q, par' c = Some q -> (In c ms /\ q = p) \/ (~ In c ms /\ bpar s c = Some q)) ->
+  exists r', forall c q, par' c = Some q -> r' q < r' c.
+Proof.
+  intros [_ _ _ _ Hb [r Hr]] Hms Hpar.
+  set (D := fun x => existsb (fun m => Nat.eqb x m || memb m (bancestors s x)) ms).
+  exists (fun x => if D x then r x + r p + 1 else r x).
+  intros c q E. destruct (Hpar c q E) as [[Hin ->]|[Hnin Eold]].
+  - assert (D p = false) as ->.
+    { destruct (D p) eqn:ED; [|reflexivity]. unfold D in ED. apply existsb_exists in ED.
+      destruct ED as [m [Hm Hor]]. destruct (Hms m Hm) as [Hne Hna].
+      apply orb_true_iff in Hor. destruct Hor as [H|H].
+      - apply Nat.eqb_eq in H. congruence.
+      - apply memb_In in H. contradiction. }
+    assert (D c = true) as ->.
+    { unfold D. apply existsb_exists. exists c. split; [exact Hin|]. rewrite Nat.eqb_refl. reflexivity. }
+    lia.
+  - assert (HD : D c = D q).
+    { unfold D. apply existsb_ext_in. intros m Hm.
+      rewrite (bancestors_unfold s r Hr Hb c q Eold).
+      destruct (Nat.eqb_spec c m) as [->|Hne]; [contradiction|].
+      cbn [orb memb existsb]. fold (memb m (bancestors s q)). rewrite (Nat.eqb_sym m q). reflexivity. }
+    rewrite HD. specialize (Hr _ _ Eold). destruct (D q); lia.
+Qed.
+
+(* ------------------------------------------------------------------------------------------ *)
+(* "relinking": node p gets the slot list `news`; the nodes named in `news` leave the slots they sat
+   in; the previous children of p that are not named become roots; nothing else changes.  Every
+   accepted operation of the model is an instance. *)
+
+Definition rmset (news : list (option id)) (o : option id) : option id :=
+  match o with Some y => if slot_mem y news then None else Some y | None => None end.
+
+Lemma rmset_Some news o y : rmset news o = Some y <-> o = Some y /\ slot_mem y news = false.
+Proof.
+  unfold rmset. destruct o as [z|]; [|split; [discriminate|intros [? _]; discriminate]].
+  destruct (slot_mem z news) eqn:E; split.
+  - discriminate.
+  - intros [[= ->] H]. congruence.
+  - intros [= ->]. split; [reflexivity|exact E].
+  - intros [[= ->] _]. reflexivity.
+Qed.
+
+Record relinked (s s' : bheap) (p : id) (news : list (option id)) : Prop := {
+  rl_size : bsize s' = bsize s;
+  rl_par  : forall x, bpar s' x = if slot_mem x news then Some p
+                                   else if slot_mem x (bkids s p) then None else bpar s x;
+  rl_kids_p : bkids s' p = news;
+  rl_len  : forall q, q <> p -> length (bkids s' q) = length (bkids s q);
+  rl_kids : forall q j, q <> p -> slot (bkids s' q) j = rmset news (slot (bkids s q) j)
+}.
+
+Record valid_news (s : bheap) (p : id) (news : list (option id)) : Prop := {
+  vn_len : length news = 2;
+  vn_once : once news;
+  vn_p : p < bsize s;
+  vn_in : forall x, In (Some x) news -> x < bsize s /\ x <> p /\ ~ In x (bancestors s p)
+}.
+
+Lemma somes_In x l : In x (somes l) <-> In (Some x) l.
+Proof.
+  induction l as [|[y|] t IH]; cbn [somes In]; [tauto| |].
+  - rewrite IH. split; [intros [->|H]; auto|intros [[= ->]|H]; auto].
+  - rewrite IH. split; [auto|intros [H|H]; [discriminate|exact H]].
+Qed.
+
+Theorem relink_BWF s s' p news : BWF s -> valid_news s p news -> relinked s s' p news -> BWF s'.
+Proof.
+  intros W [Vl Vo Vp Vin] [Rs Rp Rkp Rl Rk]. pose proof W as [Hl Hd Hu Ho Hb _].
+  assert (Hnp : forall c q, q <> p -> bpar s c = Some q -> slot_mem c (bkids s p) = false).
+  { intros c q Hq E. apply slot_mem_false. intros Hin. apply In_slot in Hin. destruct Hin as [i Hi].
+    apply Hd in Hi. congruence. }
+  constructor.
+  - intros q. destruct (Nat.eq_dec q p) as [->|Hq]; [rewrite Rkp; exact Vl|rewrite Rl by exact Hq; apply Hl].
+  - intros q j c H. destruct (Nat.eq_dec q p) as [->|Hq].
+    + rewrite Rkp in H. apply slot_In, slot_mem_In in H. rewrite Rp, H. reflexivity.
+    + rewrite Rk in H by exact Hq. apply rmset_Some in H. destruct H as [H Hm].
+      apply Hd in H. rewrite Rp, Hm, (Hnp c q Hq H). exact H.
+  - intros c q H. rewrite Rp in H. destruct (slot_mem c news) eqn:Em.
+    + injection H as <-. apply slot_mem_In, In_slot in Em. rewrite Rkp. exact Em.
+    + destruct (slot_mem c (bkids s p)) eqn:Ek; [discriminate|].
+      assert (Hq : q <> p).
+      { intros ->. apply Hu in H. destruct H as [i Hi]. apply slot_In, slot_mem_In in Hi. congruence. }
+      destruct (Hu _ _ H) as [i Hi]. exists i. rewrite Rk by exact Hq. apply rmset_Some. split; assumption.
+  - intros q. destruct (Nat.eq_dec q p) as [->|Hq]; [rewrite Rkp; exact Vo|].
+    intros i j x Hi Hj. rewrite Rk in Hi, Hj by exact Hq. apply rmset_Some in Hi, Hj.
+    exact (Ho q _ _ _ (proj1 Hi) (proj1 Hj)).
+  - intros c q H. rewrite Rs. rewrite Rp in H. destruct (slot_mem c news) eqn:Em.
+    + injection H as <-. apply slot_mem_In in Em. destruct (Vin c Em) as [Hc _]. split; assumption.
+    + destruct (slot_mem c (bkids s p)); [discriminate|]. apply Hb. exact H.
+  - apply (rerank s (somes news) p (bpar s') W).
+    + intros x Hx. apply somes_In in Hx. destruct (Vin x Hx) as [_ H]. exact H.
+    + intros c q H. rewrite Rp in H. destruct (slot_mem c news) eqn:Em.
+      * injection H as <-. left. split; [apply somes_In, slot_mem_In; exact Em|reflexivity].
+      * destruct (slot_mem c (bkids s p)); [discriminate|]. right. split; [|exact H].
+        intros Hin. apply somes_In, slot_mem_In in Hin. congruence.
+Qed.
